@@ -85,7 +85,7 @@ class C01(Check):
             'the low and of the high half of the debug id on two bases, (d) all ordered sequences of <=3 decodes over a '
             'pool of 8 records that share sub-fields (result must equal the solo decode), (e) all ordered triples over a 9-record pool '
             'reached through the container parsers (a v2 dump; v3 dumps for every composition of the 3 records into 1..3 chunks; two '
-            'v2 parses alive at once under every interleaving; records beginning with the v2 magic / a v3 tag; inter-chunk fillers of 4060..4099 bytes), (f) every event id of the bundled code table (thorough: under each of the 4 qualifiers) as the first and third record of a 4-record dump whose later records carry OLDER timestamps, through a v2 dump, a two-chunk v3 dump and the facade listing. Oracle: independent byte-slicing '
+            'v2 parses alive at once under every interleaving; records beginning with the v2 magic / a v3 tag; inter-chunk fillers of 4060..4099 bytes; chunks of 255..258 and 300 records next to another chunk; dumps that begin 1..4100 bytes into the stream), (f) every event id of the bundled code table (thorough: under each of the 4 qualifiers) as the first and third record of a 4-record dump whose later records carry OLDER timestamps, through a v2 dump, a two-chunk v3 dump and the facade listing. Oracle: independent byte-slicing '
             'decoder, the algebraic clauses, rebuild of the first 52 bytes, single-bit non-interference. Distinct by '
             'construction per sub-space; non-trivial = the record differs from its base (or, for histories, has length >=2).')
     assumptions = ('2^512 records are not enumerable: a special case keyed on a specific value outside the enumerated shapes '
@@ -240,6 +240,33 @@ class C01(Check):
                     if got != exp:
                         acc.violation('record-decoded-differently-through-container:' + label[:2], {'kind': 'container', 'seq': list(seq), 'label': label},
                                       {'got': repr(got)[:300], 'expected': repr(exp)[:300]})
+            # chunks of 255..258 / 300 records followed by another chunk; dumps that begin 1..4100 bytes into the stream
+            for n in (255, 256, 257, 258, 300):
+                recs = [B.rec(1000 + i, (i, i * 3, 7, 9), 1 + i % 3, 0x040c0004 | (i % 4)) for i in range(n)] + [P[0], P[1]]
+                exp = [ref_decode(r) for r in recs]
+                for label, blob in (('v3-big-chunk-then-chunk', B.v3([(1, 2, 'a')], [recs[:n], recs[n:]])), ('v3-chunk-then-big-chunk', B.v3([(1, 2, 'a')], [recs[:2], recs[2:]])),
+                                    ('v2', B.v2([(1, 2, 'a')], 0, recs))):
+                    try:
+                        got = events(blob)
+                    except Exception as ex:
+                        got = repr(ex)
+                    acc.case(nontrivial=True, transitions=n + 2)
+                    if got != exp:
+                        acc.violation('record-decoded-differently-through-container:' + label, {'kind': 'container-big', 'n': n, 'label': label}, {'got': repr(got)[:200]})
+            for off in (1, 7, 8, 63, 64, 0x100, 0x120, 0x123, 4000, 4091, 4096, 4100):
+                recs = [P[0], P[1], P[2]]
+                exp = [ref_decode(r) for r in recs]
+                for label, blob in (('v2@offset', B.v2([(1, 2, 'a')], 0, recs)), ('v2-page-padded@offset', B.v2([(1, 2, 'a')], 4096 - 0x120 - 32, recs)),
+                                    ('v3@offset', B.v3([(1, 2, 'a')], [recs[:1], recs[1:]]))):
+                    st = io.BytesIO(bytes((i * 11 + 3) % 255 + 1 for i in range(off)) + blob)
+                    st.seek(off)
+                    try:
+                        got = [(e.timestamp, e.data, tuple(e.values), e.tid, e.debugid, e.eventid, e.func_qualifier) for e in KdBufParser({}, {}).parse(st)]
+                    except Exception as ex:
+                        got = repr(ex)
+                    acc.case(nontrivial=True, transitions=3)
+                    if got != exp:
+                        acc.violation('record-decoded-differently-through-container:' + label, {'kind': 'container-offset', 'offset': off, 'label': label}, {'got': repr(got)[:200]})
             # a dump cut in the middle of a record (parsing it raises), then a complete dump, in the same process
             for cut in (1, 20, 63, 64 + 31):
                 whole = B.v2([], 0, [P[0], P[1], P[2]])
